@@ -46,6 +46,9 @@ fn acc(list: &[(&[u8], &[u8])]) -> Vec<(Vec<u8>, Vec<u8>)> {
 pub struct E1Job {
     pub profile: Profile,
     pub depth: usize,
+    /// build with the resources mapped onto the "hostile" part of the concrete universe
+    /// (A -> (Cell0, 2^32+1), B -> (Cell0, 1), C -> (Cell1, 2^64-256), D -> (Cell1, 7))
+    pub alt_map: bool,
 }
 
 /// E1 jobs per property and tier.
@@ -54,27 +57,27 @@ pub fn e1_jobs(prop: &str, tier: Tier) -> (Vec<E1Job>, usize) {
     let b_acc = acc(&[(&[], &[]), (&[0], &[]), (&[], &[0]), (&[], &[1]), (&[0], &[1])]);
     let b_small = acc(&[(&[], &[]), (&[0], &[]), (&[], &[0])]);
     let d_acc = acc(&[(&[], &[]), (&[0], &[]), (&[], &[0]), (&[], &[1])]);
-    let pa = |d| E1Job { profile: Profile::A { times: vec![1, 3, 5] }, depth: d };
-    let pa1 = |d| E1Job { profile: Profile::A { times: vec![3] }, depth: d };
-    let pa15 = |d| E1Job { profile: Profile::A { times: vec![1, 5] }, depth: d };
-    let pb = |d| E1Job { profile: Profile::B { access: b_acc.clone(), times: vec![3, 5], unnamed: true, dup: true, pairs: true }, depth: d };
-    let pbs = |d| E1Job { profile: Profile::B { access: b_small.clone(), times: vec![3], unnamed: false, dup: true, pairs: true }, depth: d };
-    let pc = |d| E1Job { profile: Profile::C { times: vec![1, 5] }, depth: d };
-    let pd = |d| E1Job { profile: Profile::D { access: d_acc.clone() }, depth: d };
-    let pe = |m, rich, d| E1Job { profile: Profile::E { inner_max: m, rich }, depth: d };
-    let pf = |d| E1Job { profile: Profile::F, depth: d };
-    let pn = |d| E1Job { profile: Profile::N, depth: d };
-    let pill = |d| E1Job { profile: Profile::Ill, depth: d };
+    let pa = |d| E1Job { profile: Profile::A { times: vec![1, 3, 5] }, depth: d, alt_map: false };
+    let pa1 = |d| E1Job { profile: Profile::A { times: vec![3] }, depth: d, alt_map: false };
+    let pa15 = |d| E1Job { profile: Profile::A { times: vec![1, 5] }, depth: d, alt_map: false };
+    let pb = |d| E1Job { profile: Profile::B { access: b_acc.clone(), times: vec![3, 5], unnamed: true, dup: true, pairs: true }, depth: d, alt_map: false };
+    let pbs = |d| E1Job { profile: Profile::B { access: b_small.clone(), times: vec![3], unnamed: false, dup: true, pairs: true }, depth: d, alt_map: false };
+    let pc = |d| E1Job { profile: Profile::C { times: vec![1, 5] }, depth: d, alt_map: false };
+    let pd = |d| E1Job { profile: Profile::D { access: d_acc.clone() }, depth: d, alt_map: false };
+    let pe = |m, rich, d| E1Job { profile: Profile::E { inner_max: m, rich }, depth: d, alt_map: false };
+    let pf = |d| E1Job { profile: Profile::F, depth: d, alt_map: false };
+    let pn = |d| E1Job { profile: Profile::N, depth: d, alt_map: false };
+    let pill = |d| E1Job { profile: Profile::Ill, depth: d, alt_map: false };
     let fam = if q { 64 } else { 400 };
     let jobs = match prop {
-        "C01" | "C05" => if q { vec![pa(3), pbs(4), pc(6), pd(4), pe(1, true, 2), pa15(4)] } else { vec![pa(4), pb(4), pc(8), pd(6), pe(2, true, 2), pe(1, false, 3)] },
+        "C01" | "C05" => if q { vec![pa(3), E1Job { profile: Profile::A { times: vec![1, 3, 5] }, depth: 3, alt_map: true }, pbs(4), pc(6), pd(4), pe(1, true, 2), pa15(4)] } else { vec![pa(4), pb(4), pc(8), pd(6), pe(2, true, 2), pe(1, false, 3)] },
         "C02" => if q { vec![pb(3), pbs(4), pd(5)] } else { vec![pb(4), pbs(5), pd(6)] },
         "C03" => if q { vec![pd(5), pf(4), pe(1, true, 2)] } else { vec![pd(7), pf(5), pe(2, true, 2)] },
-        "C04" => if q { vec![pa1(3), pbs(3), pc(6), pd(4), pe(1, true, 2), pf(4), E1Job { profile: Profile::S, depth: 2 }] } else { vec![pa(3), pbs(4), pc(8), pd(5), pe(2, true, 2), pf(5)] },
+        "C04" => if q { vec![pa1(3), pbs(3), pc(6), pd(4), pe(1, true, 2), pf(4), E1Job { profile: Profile::S, depth: 2, alt_map: false }] } else { vec![pa(3), pbs(4), pc(8), pd(5), pe(2, true, 2), pf(5)] },
         "C07" => if q { vec![pe(1, true, 2), pe(2, true, 1), pe(1, false, 3)] } else { vec![pe(2, true, 2), pe(1, true, 3)] },
         "C10" => if q { vec![pa(3), pb(3), pbs(4), pc(6), pd(5), pa15(4)] } else { vec![pa(3), pa1(4), pb(4), pbs(5), pc(8), pd(7)] },
         "C12" => if q { vec![pf(4)] } else { vec![pf(6)] },
-        "C13" => if q { vec![pf(4), pe(1, true, 2), E1Job { profile: Profile::S, depth: 2 }, E1Job { profile: Profile::S, depth: 3 }] } else { vec![pf(5), pe(2, true, 2), E1Job { profile: Profile::S, depth: 3 }] },
+        "C13" => if q { vec![pf(4), pe(1, true, 2), E1Job { profile: Profile::S, depth: 2, alt_map: false }, E1Job { profile: Profile::S, depth: 3, alt_map: false }] } else { vec![pf(5), pe(2, true, 2), E1Job { profile: Profile::S, depth: 3, alt_map: false }] },
         "C04x" => vec![],
         "C18" => if q { vec![pill(4), pc(7), pbs(3), pn(3)] } else { vec![pill(5), pc(9), pb(4), pn(4), pe(1, true, 2)] },
         "C19" => if q { vec![pa15(3), pb(3), pd(5), pe(1, true, 2), pc(5)] } else { vec![pa(3), pb(4), pd(6), pe(1, true, 2), pc(7), pf(4)] },
@@ -115,10 +118,10 @@ pub fn run_e1(prop: &str, tier: Tier, budget: Duration, frag: &mut Frag) {
         let remaining = budget.saturating_sub(start.elapsed());
         let share = remaining / (njobs - k) as u32;
         let t0 = Instant::now();
-        let run = E1Run { c19_maps: if prop == "C19" { if tier == Tier::Quick { 12 } else { 360 } } else { 0 }, profile: &job.profile, depth: job.depth, props, need, deadline: t0 + share, threads: threads() };
+        let run = E1Run { resmap: if job.alt_map { vec![4, 1, 5, 3, 0, 2] } else { crate::hsys::Ctx::identity_map() }, c19_maps: if prop == "C19" { if tier == Tier::Quick { 12 } else { 360 } } else { 0 }, profile: &job.profile, depth: job.depth, props, need, deadline: t0 + share, threads: threads() };
         let r = run_profile(&run);
         let wall = t0.elapsed().as_secs_f64();
-        frag.parts.push(stats_json(&job.profile.label(), job.depth, &r, wall));
+        frag.parts.push(stats_json(&format!("{}{}", job.profile.label(), if job.alt_map { " [resources mapped onto large / colliding-under-truncation dynamic ids]" } else { "" }), job.depth, &r, wall));
         frag.states += r.stats.states;
         frag.transitions += r.stats.transitions;
         frag.traces_validated += r.stats.states;
